@@ -33,7 +33,62 @@ def model(cvals, mixed=False):
     return m, x, t
 
 
+class _Capture:
+    """a solver interface that records the program it is handed and solves nothing"""
+    def __init__(self):
+        self.formula = None
+
+    def solve(self, formula, display=True, log=False, params={}):
+        self.formula = formula
+        return None
+
+
+def plumbing(ctx, seed):
+    """soc_solve(solver, degree, cuts) of every front end hands the solver exactly do_math().to_socp(degree, cuts)"""
+    import rsome as rso
+    from rsome import ro, dro, gcp, E
+    r = np.random.default_rng(seed)
+    front = str(r.choice(['ro', 'dro', 'gcp']))
+    degree = int(r.choice([2, 3, 4, 5, 6, 8])); cuts = (int(r.choice([-30, -20, -8])), int(r.choice([60, 30, 10])))
+    use_default = bool(r.random() < 0.4)
+    case = {"plumbing_seed": seed, "front": front, "degree": degree, "cuts": list(cuts), "default_arguments": use_default}
+    ctx.search_cases += 1; ctx.evaluations += 1
+    try:
+        with C.quiet():
+            if front == 'gcp':
+                m = gcp.Model(); x = m.dvar(2); t = m.dvar()
+                m.min(t)
+                for cc in (rso.exp(x[0]) + 0.5 * x[1] <= t, rso.log(x[1] + 3) >= 0.5, x <= 2, x >= -2):
+                    m.st(cc)                                          # the stand-alone layers take one constraint per st()
+            elif front == 'ro':
+                m = ro.Model(); x = m.dvar(2); t = m.dvar(); z = m.rvar()
+                m.minmax(t + z, z >= -1, z <= 1); m.st(rso.exp(x[0]) + 0.5 * x[1] <= t, (x[1] >= z * x[0]).forall(z >= -1, z <= 1), x <= 2, x >= -2)
+            else:
+                m = dro.Model(2); x = m.dvar(2); t = m.dvar(); z = m.rvar()
+                fs = m.ambiguity(); fs.suppset(z >= -1, z <= 1)
+                m.minsup(E(t + z), fs); m.st(rso.exp(x[0]) + 0.5 * x[1] <= t, x[1] >= z * x[0], x <= 2, x >= -2)
+            cap = _Capture()
+            if use_default:
+                m.soc_solve(cap, display=False); degree, cuts = 4, (-30, 60)
+            else:
+                m.soc_solve(cap, degree=degree, cuts=cuts, display=False)
+            want = m.do_math().to_socp(degree, cuts)
+        got = cap.formula
+        if got is None:
+            ctx.hit('soc_solve-did-not-call-the-solver', {}, case); return
+        gj, wj = C.prog_json(got), C.prog_json(want)
+        keys = [k for k in C.PROG_KEYS + ('qmat', 'xmat', 'vtype') if gj.get(k) != wj.get(k)]
+        if keys:
+            ctx.hit('soc_solve-hands-over-another-program', {"differs_in": keys, "shape_handed": [gj['nr'], gj['nc']], "shape_expected": [wj['nr'], wj['nc']]}, case)
+        else:
+            ctx.count('plumbing:' + front + ':identical')
+    except Exception as ex:
+        ctx.hit('soc_solve-plumbing-raises:' + type(ex).__name__, {"error": str(ex)[:200]}, case)
+
+
 def run(ctx):
+    for k in range(ctx.n(18, 200)):
+        plumbing(ctx, int(ctx.rng.integers(2 ** 31)))
     from rsome import eco_solver, grb_solver
     C.run_difftest(ctx, 'test_to_socp.py', ctx.n(60, 1200), 'GCProg.to_socp')
     r = ctx.rng
@@ -107,4 +162,8 @@ def run(ctx):
 
 
 def replay(rp):
+    if 'plumbing_seed' in rp.get('case', {}):
+        ctx = C.Ctx('C18', 'quick', 0)
+        plumbing(ctx, rp['case']['plumbing_seed'])
+        return {"hits": [(h['key'], h['detail']) for h in ctx.hits], "fails": bool(ctx.hits)}
     return {"fails": True, "case": rp['case'], "note": "deterministic: re-run bin/check C18"}
